@@ -88,12 +88,14 @@ func (it *c17Item) text() string {
 
 type c17Gen struct {
 	*rdbGen
-	maxElems int
-	binary   bool   // binary (non-printable, non-UTF-8) keys and values
-	chunkL   int    // chunk limit of the binary that will run the case (for the `chunk` flag)
-	zsetBias bool   // half of the keys are sorted sets (D19 stream)
-	hashBias bool   // half of the keys are plain (type 4) hashes (chunk stream)
-	flags    map[string]bool
+	maxElems   int
+	binary     bool // binary (non-printable, non-UTF-8) keys and values
+	chunkL     int  // chunk limit of the binary that will run the case (for the `chunk` flag)
+	zsetBias   bool // half of the keys are sorted sets (D19 stream)
+	hashBias   bool // half of the keys are plain (type 4) hashes (chunk stream)
+	forceN     int  // > 0: every collection has exactly this many elements, kinds from forceKinds
+	forceKinds []int
+	flags      map[string]bool
 }
 
 func c17NonFiniteBits(b uint64) bool { return (b>>52)&0x7ff == 0x7ff }
@@ -289,7 +291,11 @@ func (g *c17Gen) ziplist(elems [][]byte) []byte {
 	total := 10 + len(body) + 1
 	b := c17Le(uint64(total), 4)
 	b = append(b, c17Le(uint64(tail), 4)...)
-	b = append(b, c17Le(uint64(len(elems)), 2)...)
+	cnt := len(elems)
+	if cnt > 65535 {
+		cnt = 65535 // saturated count: the reader walks the entries
+	}
+	b = append(b, c17Le(uint64(cnt), 2)...)
 	b = append(b, body...)
 	return append(b, 0xff)
 }
@@ -470,6 +476,9 @@ func (g *c17Gen) value(it *c17Item, kind int, nonFinite bool) (byte, []byte) {
 		n = 1
 	default:
 		n = g.r.Intn(g.maxElems + 1)
+	}
+	if g.forceN > 0 {
+		n = g.forceN
 	}
 	maxS := g.maxStr
 	elems := func(small bool) [][]byte {
@@ -735,6 +744,9 @@ func (g *c17Gen) fileTail(nitems int, nonFinite, streams bool, bigTail int) ([]*
 			if i >= nitems {
 				kind = []int{1, 2, 4, 6, 7, 9, 10, 11}[g.r.Intn(8)]
 			}
+			if g.forceN > 0 {
+				kind = g.forceKinds[g.r.Intn(len(g.forceKinds))]
+			}
 			t, v := g.value(it, kind, nonFinite)
 			b = append(b, t)
 			b = append(b, g.encStr(it.key)...)
@@ -827,10 +839,19 @@ func genC17(g *gen) {
 	//     far beyond any internal batch size
 	nbig := g.pick(4, 40)
 	for i := 0; i < nbig; i++ {
-		cg.maxStr, cg.maxElems = 3, []int{5000, 9000, 13000, 70000}[i%4]
+		cg.maxStr, cg.maxElems = 3, []int{5000, 9000, 70000, 140000}[i%4] // the last two reach ziplists whose 16-bit count saturates (65535)
 		cg.binary = i%2 == 0
 		items, file := cg.file(1+g.r.Intn(3), false, false)
 		cg.emitDec(g, 1+g.r.Intn(4), items, file)
+	}
+	// 1c. ziplists around the point where their 16-bit entry count saturates (65535 = "walk the entries")
+	for i, nz := 0, g.pick(2, 12); i < nz; i++ {
+		cg.maxStr, cg.binary = 2, i%2 == 0
+		cg.forceN = []int{65536, 32768, 65535, 70001, 32767, 40000}[i%6]       // hash/zset ziplists hold two entries per element
+		cg.forceKinds = [][]int{{2}, {7, 11}, {2}, {2}, {7, 11}, {7, 11}}[i%6] // 2 list, 7 hash, 11 sorted set — all ziplist-encoded
+		items, file := cg.file(1, false, false)
+		cg.forceN = 0
+		cg.emitDec(g, 1+g.r.Intn(3), items, file)
 	}
 	// 2. many keys x every parallel 1..8 on the SAME file (schedule must not matter); big blocks at the end so
 	//    that workers finish at very different times
